@@ -53,6 +53,68 @@ func runC09(c *Ctx) {
 	setup := []Op{{Op: "ins", V: 1, K: 0}, {Op: "ins", V: 2, K: 2}}
 	item := 0
 	sitesSeen := map[string]bool{}
+	// the same entry points on a collection holding an object whose file is missing or unreadable:
+	// error paths and "continue past the error" loops must terminate and release their locks
+	damagedCalls := []Call{
+		{Name: "get", Slot: 0}, {Name: "all"}, {Name: "assignall"}, {Name: "collect", Field: "A", Cmp: ">=", Probe: 2}, {Name: "collect", Field: "P", Cmp: ">=", Probe: 0},
+		{Name: "searchu", Field: "P", Cmp: "=", Probe: 1}, {Name: "one", Field: "A", Cmp: ">=", Probe: 2}, {Name: "assign", Field: "P", Cmp: ">=", Probe: 0},
+		{Name: "upd", Slot: 0, V: 3, K: 0}, {Name: "del", Slot: 0}, {Name: "delall"}, {Name: "deleteobjects"},
+		{Name: "sdel", Field: "A", Cmp: ">=", Probe: 2}, {Name: "sdel", Field: "P", Cmp: ">=", Probe: 0},
+		{Name: "control"}, {Name: "repair"}, {Name: "create"}, {Name: "close"},
+	}
+	for _, cfg := range []Cfg{{}, {Cache: true}, {Async: 1}} {
+		for _, damage := range []string{"missing-file", "garbled-file"} {
+			for _, cold := range []bool{false, true} {
+				for _, a := range damagedCalls {
+					item++
+					if item%c.NShards != c.Shard {
+						continue
+					}
+					prog := Prog{Cfg: cfg, Setup: setup, Cold: cold, Threads: [][]Call{{a}, {{Name: "commit"}}}, Ticks: 3, Damage: damage}
+					reported := false
+					st := exploreSchedules(1, 200000, func(prefix []int) *vrt.Exec {
+						r := runProg(prog, prefix, 1, func(w *World, r *ExecResult) {
+							w.DB.Count(&Rec{})
+							w.DB.Commit(&Rec{})
+							vrt.Tick(2)
+							w.DB.Count(&Rec{})
+							w.DB.Commit(&Rec{})
+						})
+						return r.X
+					}, func(x *vrt.Exec, choices []int) bool {
+						c.Count("schedules", 1)
+						c.Count("evaluations", 1)
+						c.Count("transitions", x.NPoints+1)
+						if x.Deadlock || x.Horizon {
+							c.Count("deadlocks", 1)
+							if !reported {
+								reported = true
+								kind := "deadlock"
+								if x.Horizon {
+									kind = "no-progress"
+								}
+								c.Violation(Violation{
+									Sig:  fmt.Sprintf("C09|%s|damaged|call=%s|blocked=%s", kind, a.Name, normBlocked(append([]string{}, x.Blocked...))),
+									What: fmt.Sprintf("on a collection with one %s, with this schedule the calls never finish: %v\n  program: %s", damage, x.Blocked, jsonOf(prog)),
+									Cfg:  cfg, More: map[string]interface{}{"program": prog, "schedule": choices},
+								})
+							}
+							return false
+						}
+						for _, p := range x.Panics {
+							c.Violation(Violation{Sig: "C09|panic|damaged|" + a.Name + "|" + normPanic(p.Value+" @ "+sodFrame(p.Stack)), What: "panic in " + p.Name + ": " + p.Value + "\n" + trimStack(p.Stack), Cfg: cfg, More: map[string]interface{}{"program": prog, "schedule": choices}})
+							return false
+						}
+						return true
+					})
+					c.Count("programs", 1)
+					c.Count("paths_replayed", st.Execs)
+					c.Distinct("states", jsonOf(prog))
+					c.Distinct("distinct_nontrivial", jsonOf(prog))
+				}
+			}
+		}
+	}
 	for _, cfg := range cfgs {
 		for _, cold := range []bool{false, true} {
 			if cold && c.Tier == "quick" && cfg.Async != 0 {
